@@ -572,6 +572,34 @@ def run(ctx):
                 ctx.ok("C04-R3", "get_index = (tree position + %d, leaf pdf id of the tree for state_index)" % off_tree, gi.loc())
             else:
                 ctx.fail("C04-R3", gi.path, "return value", "get_index returns %s" % show(ret)[:160], gi.loc())
+    if gi is not None:
+        # which tree is searched: the one find_tree_index names, and the first tree for a state
+        # that has none of its own (the format's default tree) - never another constant
+        geb = ExprBuilder(gi)
+        nidx = 0
+        for bb_, t_ in gi.calls():
+            c_ = t_["callee"]
+            nm_ = cm.callee_name(c_) if c_["k"] == "fndef" else ""
+            if not (nm_.endswith("Index<I>>::index") or nm_.endswith("::index")) or len(t_["args"]) != 2:
+                continue
+            a0, a1 = geb.at(bb_).op(t_["args"][0]), geb.op(t_["args"][1])
+            if show(a0) != "self.trees":
+                continue
+            nidx += 1
+            xs = show(a1)
+            from_find = "find_tree_index(self, state_index)" in xs and (xs.endswith("as Some).0") or "unwrap_or(" in xs)
+            dflt = None
+            if a1[0] == "c":
+                dflt = a1[1]
+            elif a1[0] == "call" and a1[1].endswith("unwrap_or") and len(a1[2]) == 2 and a1[2][1][0] == "c":
+                dflt = a1[2][1][1]
+            if dflt is not None and dflt != 0:
+                ctx.fail("C04-R3", gi.path, "fallback tree", "a state without a tree of its own is looked up in trees[%s], expected the first tree (trees[0])" % dflt, cm.loc_of(t_["span"]))
+            elif dflt == 0 or from_find:
+                ctx.ok("C04-R3", "get_index searches %s" % ("the first tree for a state without its own" if dflt == 0 and not from_find else "the tree find_tree_index names" + (" (first tree otherwise)" if dflt == 0 else "")), cm.loc_of(t_["span"]))
+            else:
+                ctx.fail("C04-R3", gi.path, "tree selection", "get_index indexes self.trees with %s: neither the tree find_tree_index names nor the first tree" % xs[:80], cm.loc_of(t_["span"]))
+        ctx.anchor("C04-R3", "tree selections in get_index", nidx, 1, gi.loc())
     gp = cm.body_or_fail(ctx, p, "C04-R3", "model::voice::model::Model::get_parameter")
     if gp is not None and off_tree is not None:
         eb = ExprBuilder(gp)
